@@ -856,18 +856,44 @@ def shrink_prefix(kind, typ, ops, upto):
     return ops[:upto + 1]
 
 
-def run_batch(driver_impl, driver_model, lines, timeout=1500):
+def _run_chunks(driver, chunks, timeout, env=None, flush=True):
+    """run the driver once per chunk (every chunk starts at a history header, so the driver state carries nothing
+    over) and concatenate the printed lines; stops at the first chunk that fails.  Keeps each process' output
+    below the pipeline's output cap."""
+    out_lines = []
+    rc, err = 0, ""
+    for ch in chunks:
+        text = "\n".join((["-1 0 0 0"] if flush else []) + ch) + "\n"
+        rc, out, err = vlib.sh([driver], input=text, timeout=timeout, env=env)
+        ol = out.split("\n")
+        if rc != 0 and ol and ol[-1] != "":
+            ol = ol[:-1]          # a partially written last line
+        elif ol and ol[-1] == "":
+            ol = ol[:-1]
+        out_lines += ol
+        if rc != 0:
+            break
+    return rc, out_lines, err
+
+
+def chunked(groups, maxlines=250000):
+    """groups: list of line lists (one per history); returns chunks of whole groups"""
+    chunks, cur = [], []
+    for g in groups:
+        if cur and len(cur) + len(g) > maxlines:
+            chunks.append(cur); cur = []
+        cur = cur + g
+    if cur:
+        chunks.append(cur)
+    return chunks
+
+
+def run_batch(driver_impl, driver_model, chunks, timeout=1500):
     """the implementation runs in flush mode (op -1): if it dies or does not terminate, everything it printed
     before is kept and the first operation without an output line is the failing one"""
-    text = "\n".join(["-1 0 0 0"] + lines) + "\n"
-    rc1, iout, ierr = vlib.sh([driver_impl], input=text, timeout=timeout)
-    rc2, mout, merr = vlib.sh([driver_model], input=text, timeout=max(timeout, 600))
-    il = iout.split("\n")
-    if rc1 != 0 and il and il[-1] != "":
-        il = il[:-1]          # a partially written last line
-    elif il and il[-1] == "":
-        il = il[:-1]
-    return rc1, il, ierr, rc2, mout.split("\n"), merr
+    rc1, il, ierr = _run_chunks(driver_impl, chunks, timeout)
+    rc2, ml, merr = _run_chunks(driver_model, chunks, max(timeout, 600), flush=False)
+    return rc1, il, ierr, rc2, ml, merr
 
 
 def load_corpus():
@@ -947,15 +973,15 @@ def correspond(ctx):
             else:
                 a = rng.randrange(0, n + 1); ops.append((2, a, rng.randrange(a, n + 1), 0))
         hist.append({"kind": 7, "typ": 0, "n": n, "ops": ops, "dump": 0, "stream": "span"})
-    lines = []
+    groups = []
     owners = []     # for every line the implementation prints: (history index, step index or -1 for the header)
     for hi_, h in enumerate(hist):
-        lines += fmt_ops(h["kind"], h["typ"], h["ops"], h["n"], h["dump"])
+        groups.append(fmt_ops(h["kind"], h["typ"], h["ops"], h["n"], h["dump"]))
         owners += [(hi_, -1)] + [(hi_, k) for k in range(len(h["ops"]))]
     hash_cases = gen_hash_cases(rng, ctx.scale(300, 20000))
-    lines += fmt_ops(8, 0, hash_cases)
-    batch_lines = list(lines)
-    rc1, il, ierr, rc2, ml, merr = run_batch(drv_impl, drv_model, lines, timeout=ctx.scale(150, 1500))
+    groups.append(fmt_ops(8, 0, hash_cases))
+    batch_chunks = chunked(groups)
+    rc1, il, ierr, rc2, ml, merr = run_batch(drv_impl, drv_model, batch_chunks, timeout=ctx.scale(150, 1500))
     nexp = sum(1 + len(h["ops"]) for h in hist) + 1 + len(hash_cases)
     if rc2 != 0 or len(ml) < nexp:
         ctx.violation("model-driver-run", "harness", "model driver rc=%s, %d of %d lines: %s" % (rc2, len(ml), nexp, merr[-400:]), failing_input=False)
@@ -1170,14 +1196,8 @@ def correspond(ctx):
                 ctx.note("ASan build of the driver failed: %s" % (o_ + e_)[-400:])
                 drv_asan = None
         if drv_asan:
-            text = "\n".join(["-1 0 0 0"] + batch_lines) + "\n"
-            rc3, aout, aerr = vlib.sh([drv_asan], input=text, timeout=ctx.scale(600, 3000),
-                                      env={"ASAN_OPTIONS": "detect_leaks=0", "UBSAN_OPTIONS": "halt_on_error=1:print_stacktrace=0"})
-            if os.environ.get("VERIF_C12_DEBUG"):
-                open(os.path.join(work, "asan_input.txt"), "w").write(text)
-            al_ = [x for x in aout.split("\n")]
-            if al_ and al_[-1] == "":
-                al_ = al_[:-1]
+            rc3, al_, aerr = _run_chunks(drv_asan, batch_chunks, ctx.scale(600, 3000),
+                                         env={"ASAN_OPTIONS": "detect_leaks=0", "UBSAN_OPTIONS": "halt_on_error=1:print_stacktrace=0"})
             report = [x for x in aerr.split("\n") if "Sanitizer" in x or "runtime error" in x]
             asan_info = {"ran": True, "exit_status": rc3, "lines": len(al_), "sanitizer_reports": report[:5],
                          "identical_to_plain_build": al_ == il[:len(al_)] and len(al_) == len(il)}
